@@ -19,7 +19,7 @@
 
 use futures::future::FusedFuture;
 use futures::stream::{FusedStream, FuturesUnordered, Stream};
-use futures::{pin_mut, select};
+use futures::{pin_mut, select_biased};
 use nix;
 use nix::errno::Errno;
 use nix::sys::signal::{self, SigHandler, Signal};
@@ -900,11 +900,14 @@ where
 
     let mut next_bg = bg_stream.next();
     loop {
-        select! {
-            x = fg_future => return x,
+        // Finished jobs are handled before the foreground future is looked at,
+        // so that their results are recorded (and their locks released) before
+        // the caller goes on to start, or wait for, anything else.
+        select_biased! {
             _ = next_bg => {
                 next_bg = bg_stream.next();
             }
+            x = fg_future => return x,
         }
     }
 }
